@@ -51,6 +51,20 @@ def wire_classifier(an, n, argvals, env):
     if c in ("savefile::Serialize::serialize", "savefile::Deserialize::deserialize"):
         t = subst_ty(n["self_ty"], tsub)
         return Ex(ev(("N", t))), None
+    if c == "savefile::Serializer::raw_write_region" and len(n["args"]) >= 4:
+        def fld(a, v):
+            a = peel(a)
+            if a.get("k") == "Field":
+                return a["f"]
+            if v is not None and v[0] == "patfield":
+                return v[3]
+            return None
+        full = subst_ty(n["targs"][1], tsub) if len(n.get("targs", [])) > 1 else "?"
+        variant = None
+        for v in argvals[2:4]:
+            if v is not None and v[0] == "patfield":
+                variant = v[2]
+        return Ex(ev(("REGION", full, variant, fld(n["args"][2], argvals[2]), fld(n["args"][3], argvals[3])))), None
     tr = n.get("trait")
     name = c.rsplit("::", 1)[-1]
     if tr == "byteorder::io::WriteBytesExt" and name.startswith("write_"):
@@ -362,6 +376,36 @@ class WireAnalysis:
         a, b = rx.minterm_expand([lw, lr])
         ok, word = rx.contains(a, b)
         return ok, word, lw, lr
+
+
+def expand_regions(r, facts):
+    """REGION(T, variant, f1, f2): the raw bytes of fields f1..f2 of T = their encodings in declaration order
+    (that the memory really looks like that is the Packed decision's obligation: rules P2/P3)"""
+    def f(sym):
+        if isinstance(sym, tuple) and sym[0] == "REGION":
+            _, full, variant, f1, f2 = sym
+            from . import tys as _t
+            head = _t.path_head(full) or full
+            adt = facts.adts.get(head)
+            if adt is None or f1 is None or f2 is None:
+                return ev(sym)
+            vs = adt["variants"]
+            vr = vs[0] if variant is None else next((v for v in vs if v["name"] == variant), None)
+            if vr is None:
+                return ev(sym)
+            names = [x["name"] for x in vr["fields"]]
+            if f1 not in names or f2 not in names:
+                return ev(sym)
+            i, j = names.index(f1), names.index(f2)
+            # zero-sized fields (Removed / AbiRemoved / PhantomData / unit) contribute no bytes to a memory region
+            lay = facts.layouts.get(full) or {}
+            lfields = lay.get("fields")
+            if variant is not None:
+                lfields = next((v.get("fields") for v in lay.get("variants", []) if v["name"] == variant), None)
+            zero = {lf["name"] for lf in (lfields or []) if lf.get("size") == 0}
+            return seq(*[ev(("N", x["ty"])) for x in vr["fields"][i:j + 1] if x["name"] not in zero])
+        return ev(sym)
+    return rx.subst(r, f)
 
 
 def canon(r):
